@@ -190,6 +190,9 @@ impl<T: Clone + Ord, U: Paving> Paving for Dim<T, U> {
             self.cut_at(range.end.clone());
 
             for (col_start, col_val) in self.cuts.iter().zip(&mut self.cols) {
+                #[cfg(oh_verif)]
+                crate::verif_hooks::paving_op();
+
                 if *col_start >= range.start && *col_start < range.end {
                     col_val.set(selector_tail, val);
                 }
@@ -248,6 +251,9 @@ impl<T: Clone + Ord, U: Paving> Paving for Dim<T, U> {
         let mut selector_range = Vec::new();
 
         while end_idx < self.cols.len() {
+            #[cfg(oh_verif)]
+            crate::verif_hooks::paving_op();
+
             if self.cols[end_idx].is_val(&selector_tail, &target_value) {
                 end_idx += 1;
                 continue;
